@@ -382,12 +382,17 @@ func (s *Server) Modify(ms spb.GRIBI_ModifyServer) error {
 	}()
 
 	resultDone := make(chan struct{})
+	sendDone := make(chan struct{})
 	go func() {
+		defer close(sendDone)
 		for {
 			select {
 			case res := <-resultChan:
 				if err := ms.Send(res); err != nil {
-					errCh <- status.Errorf(codes.Internal, "cannot write message to client channel, %s", res)
+					select {
+					case errCh <- status.Errorf(codes.Internal, "cannot write message to client channel, %s", res):
+					case <-resultDone:
+					}
 					return
 				}
 			case <-resultDone:
@@ -398,6 +403,9 @@ func (s *Server) Modify(ms spb.GRIBI_ModifyServer) error {
 
 	err := <-errCh
 	close(resultDone)
+	// A result that was handed to the sender is written before the RPC
+	// returns - returning ends the stream, and the result would be lost.
+	<-sendDone
 
 	// when this client goes away, we need to clean up its state.
 	s.deleteClient(cid)
